@@ -930,7 +930,7 @@ def lst4(units, R, unit_name='cJSON.c'):
                 continue
             R.ob('LST4', fn, x, 'dereference %s of a pointer parameter only after a NULL test' % expr_str(x)[:40], ok,
                  'guarded on every path' if ok else 'NULL %s reaches this dereference' % d['n'], key='deref:%s' % d['n'])
-    R.floor('LST4', 'public functions dereferencing pointer parameters', n, 30)
+    R.floor('LST4', 'public functions dereferencing pointer parameters', n, 18)
 
 
 # ---- LST2 list idioms ---------------------------------------------------------------------------------------------------------
